@@ -2,7 +2,8 @@
    bit 0: the implementation's actions differ from the model's;
    bit 1: the property fails on the implementation's output: with w the declared warm-up and n snapshots,
           n >= w -> exactly n actions and the first w are Hold; n < w -> only Holds and at least n; alphabet {-1,0,1};
-   bit 2: the action stream never closed. *)
+   bit 2: the action stream never closed;
+   bit 4 (16): signature 'exactly one surplus action' (required by the open findings on Alligator/SMMA). *)
 From Coq Require Import Floats ZArith Bool List.
 Import ListNotations.
 From Verif Require Import Base.FloatUtil Base.Num Base.Stream Run.FlowRun.
@@ -16,12 +17,17 @@ Definition c05_ok (w n : nat) (acts : list Z) : bool :=
   (if Nat.leb w n then Nat.eqb (length acts) n && all_hold (firstn w acts)
    else Nat.leb n (length acts) && all_hold acts).
 
+(* signature of the recorded Alligator/SMMA defect: exactly one surplus action, everything else in order *)
+Definition sig_one_late (w n : nat) (acts : list Z) : bool :=
+  forallb is_action_b acts && Nat.leb w (S n) && Nat.eqb (length acts) (S n) && all_hold (firstn w acts).
+
 Definition check (c : case) : nat :=
   match c with
   | CStrat out w adm bars obs hung =>
       if hung then (if adm then 4 else 0)
       else (if list_Z_eqb (sem out [bars]) obs then 0 else 1) +
-           (if negb adm || c05_ok (Z.to_nat w) (length bars) obs then 0 else 2)
+           (if negb adm || c05_ok (Z.to_nat w) (length bars) obs then 0 else 2) +
+           (if sig_one_late (Z.to_nat w) (length bars) obs then 16 else 0)
   | _ => 0
   end.
 
